@@ -163,11 +163,22 @@ def run_suites(ctx):
         pats = rng.choice([["."], ["t1"], ["!t1"], ["t[02468]$"], ["t1", "!t1[0-9]"], ["^t2$", "t3"], [".", "!t1"],
                            ["!t[0-4]$", "."], [".", "t1", "!t2"]])
         cases.append((trees, at_level, only, pats, counter[0]))
+        if rng.random() < 0.3:
+            # the same trees as a layer subprocess sees them (--resume-layer): the tests of its layer are the ones the
+            # parent filed under that layer - the nearest declaration wins in every process
+            cases.append((trees, at_level, only, pats, counter[0], rng.choice(layers.names)))
     queries = []
     reals = []
-    for trees, at_level, only, pats, nt in cases:
+    child_of = {}
+    for k_, c_ in enumerate(cases):
+        if len(c_) == 6:
+            child_of[k_] = c_[5]
+            cases[k_] = c_[:5]
+    for k_, (trees, at_level, only, pats, nt) in enumerate(cases):
         options = types.SimpleNamespace(at_level=at_level, only_level=only, require_unique_ids=False,
-                                        test=pats, module=["."], keepbytecode=True, post_mortem=False)
+                                        test=pats, module=["."], keepbytecode=True, post_mortem=False,
+                                        resume_layer=child_of.get(k_), resume_number=1 if k_ in child_of else 0,
+                                        processes=1)
         acc = build_filtering_func(pats)
         accepted = [i for i in range(nt) if acc("t%d" % i)]
         per = []
@@ -186,8 +197,25 @@ def run_suites(ctx):
         queries.append({"op": "suites", "suites": [t[1] for t in trees], "at_level": at_level,
                         "only_level": only, "accepted": accepted, "unit": 0})
     answers = ctx.driver.batch(queries)
-    for (trees, at_level, only, pats, nt), (per, groups, accepted), ans in zip(cases, reals, answers):
+    for k_, ((trees, at_level, only, pats, nt), (per, groups, accepted), ans) in enumerate(zip(cases, reals, answers)):
         specs = [t[1] for t in trees]
+        if k_ in child_of:
+            # a layer subprocess: only the tests of its own layer are compared (what it does with the others is its
+            # business)
+            mine = layers.index_of_name(child_of[k_])
+            bad = None
+            for spec, got in zip(specs, per):
+                want = [x for x in statement_selected(spec, at_level, only, set(accepted)) if x[1] == mine]
+                if not (at_level == MAXSIZE and only is None) and [tuple(x) for x in got if x[1] == mine] != want:
+                    bad = ("in the subprocess of layer %s tests_from_suite files %r under that layer, the statement (and "
+                           "the parent) %r" % (child_of[k_], [tuple(x) for x in got if x[1] == mine], want))
+                    break
+            ctx.count(["child", child_of[k_]] + specs + [at_level, only, pats], nontrivial=True, sample=None)
+            ctx.bump("as-layer-subprocess")
+            if bad:
+                ctx.violation(bad, {"suites": specs, "at_level": at_level, "only_level": only, "patterns": pats,
+                                    "resume_layer": child_of[k_], "real_per_suite": per}, signature="child-selection")
+            continue
         case = {"suites": specs, "at_level": at_level, "only_level": only, "patterns": pats,
                 "real_per_suite": per, "real_groups": groups, "model": ans}
         ctx.count(case["suites"] + [at_level, only, pats], nontrivial=any(nested_decl(s) for s in specs),
@@ -265,6 +293,8 @@ OPTION_VECTORS = [
     # white space at the edge of a pattern is part of the pattern (search mode: "test_a " is not "test_a")
     ["-t", "alpha "], ["-t", " alpha", "-m", "orders "], ["-t", "!alpha "], ["-m", " "], ["-t", "\tx\n"],
     ["--layer", "wm.L1 "], ["--layer", " wm", "--layer", "!L2 "], ["-t", "a b", "-m", "!\tstock "],
+    # --only-level is an equality test: negative levels are levels like any other
+    ["--only-level=-2"], ["--only-level=-1", "--all"], ["--at-level=3", "--only-level=-3"], ["--only-level=0"],
 ]
 LAYER_NAME_SETS = [
     [UNIT, "wm.L1", "wm.L2"], ["wm.L1"], [UNIT], ["wm.L2", UNIT, "wm.L1", "other.Layer"], [],
@@ -332,6 +362,8 @@ def run_layers(ctx):
                 al = int(a.split("=", 1)[1])
             if a == "--only-level":
                 ol = int(args[i + 1])
+            if a.startswith("--only-level="):
+                ol = int(a.split("=", 1)[1])
         nq.append({"op": "normalize", "all": "--all" in args, "at_level": al, "only_level": ol,
                    "unit": "-u" in args, "non_unit": "-f" in args, "layer_neg": [p.startswith("!") for p in dedup]})
         ninfo.append((args, o, dedup))
@@ -410,7 +442,8 @@ def run_layers(ctx):
         if dedup and not ("-u" in args and "-f" not in args) and list(o.layer or []) != dedup:
             bad_glue = "options %r: --layer patterns handed to the predicate are %r, given were %r" % (
                 args, list(o.layer or []), dedup)
-        olv = [int(args[i + 1]) for i, a in enumerate(args) if a == "--only-level"]
+        olv = [int(args[i + 1]) if a == "--only-level" else int(a.split("=", 1)[1]) for i, a in enumerate(args)
+               if a == "--only-level" or a.startswith("--only-level=")]
         if olv and o.only_level != olv[-1]:
             bad_glue = "options %r leave only_level = %r: --only-level %d is not in force" % (args, o.only_level, olv[-1])
         # the level given with -a / --at-level is the level in force (0 and below: every level); 1 when none is given
